@@ -155,12 +155,16 @@ var tokenRe = regexp.MustCompile(`\{p(\d{2})\.([oe])\.(\d{4})\|([a-z0-9]*)\}`)
 // recWriter is a WriterWithSource / io.Writer that records what it is given.  It serialises its writers itself (the
 // synchronisation of a client-supplied writer is the client's business) and counts overlapping calls.
 type recWriter struct {
-	mu      sync.Mutex
-	buf     bytes.Buffer
-	delay   time.Duration
-	inside  int32
-	overlap int32
+	mu        sync.Mutex
+	buf       bytes.Buffer
+	delay     time.Duration
+	inside    int32
+	overlap   int32
+	failEvery int32 // k > 0: every k-th Write fails (returns an error, records nothing); 1 = behaves like a closed writer
+	writes    int32
 }
+
+var errSinkFailed = fmt.Errorf("harness: this writer fails")
 
 func (w *recWriter) Write(p []byte) (int, error) {
 	if atomic.AddInt32(&w.inside, 1) > 1 {
@@ -168,6 +172,10 @@ func (w *recWriter) Write(p []byte) (int, error) {
 	}
 	if w.delay > 0 {
 		time.Sleep(w.delay)
+	}
+	if w.failEvery > 0 && atomic.AddInt32(&w.writes, 1)%w.failEvery == 0 {
+		atomic.AddInt32(&w.inside, -1)
+		return 0, errSinkFailed
 	}
 	w.mu.Lock()
 	w.buf.Write(p)
@@ -483,6 +491,60 @@ func buildSimple(kind string, sc Scenario, idx int) (logs.Loggers, []*sink, erro
 			return nil, nil, err
 		}
 		return l, []*sink{jsonSinkFromRec(fmt.Sprintf("json#%d", idx), w)}, nil
+	case "jsonfail1", "jsonfail2", "jsonfail5", "jsonslowm":
+		// a member whose writer fails every k-th write (k = 1: always, like a closed writer) / is slow
+		w := &recWriter{}
+		switch kind {
+		case "jsonfail1":
+			w.failEvery = 1
+		case "jsonfail2":
+			w.failEvery = 2
+		case "jsonfail5":
+			w.failEvery = 5
+		default:
+			w.delay = 30 * time.Microsecond
+		}
+		l, err := logs.NewJSONLogger(w, "lsrc", "src0")
+		if err != nil {
+			return nil, nil, err
+		}
+		sk := jsonSinkFromRec(fmt.Sprintf("%s#%d", kind, idx), w)
+		if w.failEvery > 0 {
+			sk.required = none
+		}
+		return l, []*sink{sk}, nil
+	case "jsonmultifail":
+		// JSON logger over MultipleWritersWithSource; sc.Members describes the writers: ok | slow | fail1 | fail2 | fail5
+		var ws []logs.WriterWithSource
+		var ss []*sink
+		for i, mk := range sc.Members {
+			w := &recWriter{}
+			switch mk {
+			case "slow":
+				w.delay = 30 * time.Microsecond
+			case "fail1":
+				w.failEvery = 1
+			case "fail2":
+				w.failEvery = 2
+			case "fail5":
+				w.failEvery = 5
+			}
+			sk := jsonSinkFromRec(fmt.Sprintf("writer#%d(%s)", i, mk), w)
+			if w.failEvery > 0 {
+				sk.required = none
+			}
+			ws = append(ws, w)
+			ss = append(ss, sk)
+		}
+		mw, err := logs.NewMultipleWritersWithSource(ws...)
+		if err != nil {
+			return nil, nil, err
+		}
+		l, err := logs.NewJSONLogger(mw, "lsrc", "src0")
+		if err != nil {
+			return nil, nil, err
+		}
+		return l, ss, nil
 	case "jsonmulti":
 		w1, w2 := &recWriter{}, &recWriter{}
 		mw, err := logs.NewMultipleWritersWithSource(w1, w2)
@@ -897,7 +959,7 @@ func emitCases(sc Scenario, b *built, progs [][]pop, sinks []*sink, ob runObs, r
 			obs = append(obs, fmt.Sprintf("(%s, %s)", coqNat(m.P), coqMsg(m)))
 		}
 		res.Cases = append(res.Cases, caseOut{Term: fmt.Sprintf("(CSink %s %s)", h.List(ps), h.List(obs)), Desc: sc})
-	case sc.Kind == "multi" || sc.Kind == "combined":
+	case sc.Kind == "multi" || sc.Kind == "combined" || sc.Kind == "jsonmultifail":
 		if len(ob.lost) > 0 {
 			return
 		}
@@ -922,14 +984,32 @@ func emitCases(sc Scenario, b *built, progs [][]pop, sinks []*sink, ob runObs, r
 	}
 }
 
+// memberSpec: (quiet, every k-th write fails, usable in a correspondence case)
+func memberSpec(kind string) (bool, int, bool) {
+	switch kind {
+	case "plainstring", "string", "ok", "slow", "jsonslowm":
+		return false, 0, true
+	case "quiet", "quietplain":
+		return true, 0, true
+	case "fail1", "jsonfail1":
+		return false, 1, true
+	case "fail2", "jsonfail2":
+		return false, 2, true
+	case "fail5", "jsonfail5":
+		return false, 5, true
+	}
+	return false, 0, false
+}
+
 // composite: member 0 must be an unfiltered synchronous member (its order is the order in which Log calls obtained
 // the composite's lock); an appended member joined just before the first message it holds.
 func emitMultiCase(sc Scenario, b *built, progs [][]pop, sinks []*sink, res *WResult) {
-	if len(sc.Members) == 0 || sc.Members[0] != "plainstring" {
+	// member 0 must be healthy and unfiltered: its order is the order of acceptance
+	if len(sc.Members) == 0 || (sc.Members[0] != "plainstring" && sc.Members[0] != "ok") {
 		return
 	}
 	for _, mk := range sc.Members {
-		if mk != "plainstring" && mk != "quietplain" && mk != "string" && mk != "quiet" {
+		if _, _, ok := memberSpec(mk); !ok {
 			return
 		}
 	}
@@ -1026,7 +1106,8 @@ func emitMultiCase(sc Scenario, b *built, progs [][]pop, sinks []*sink, res *WRe
 	}
 	var quiets []string
 	for _, mk := range sc.Members {
-		quiets = append(quiets, h.Bool(mk == "quiet" || mk == "quietplain"))
+		q, k, _ := memberSpec(mk)
+		quiets = append(quiets, fmt.Sprintf("(%s, %s)", h.Bool(q), coqNat(k)))
 	}
 	sinkTerm := func(s *sink) string {
 		var ms []string
@@ -1076,6 +1157,7 @@ func (g *gateWriter) SetSource(string) error { return nil }
 
 func runScript(sc Scenario, res *WResult) {
 	res.Evals++
+	coll0 := atomic.LoadInt64(&collisions.n)
 	gw := &gateWriter{arrived: make(chan mid, 4), release: make(chan struct{}), seed: sc.Seed}
 	ew := &recWriter{}
 	drops := &dropRec{}
@@ -1096,7 +1178,7 @@ func runScript(sc Scenario, res *WResult) {
 			r = seqOf[id] + 1
 			busy = true
 			return true
-		case <-time.After(20 * time.Second):
+		case <-time.After(3 * time.Second): // the poller looks every millisecond
 			stuck = true
 			return false
 		}
@@ -1141,8 +1223,15 @@ func runScript(sc Scenario, res *WResult) {
 	go func() { _ = l.Close(); close(closed) }()
 	select {
 	case <-closed:
-	case <-time.After(20 * time.Second):
+	case <-time.After(5 * time.Second):
 		stuck = true
+	}
+	if stuck && atomic.LoadInt64(&collisions.n) > coll0 {
+		// the known diode defect hit this scripted run: a Set collided with the polling reader on a stale bucket and
+		// the reader is stuck behind the emptied slot (see runGap); not scriptable, no case
+		res.Counts["ring-script-hit-by-gap"]++
+		res.fail("stuck-in-ring-at-close", fmt.Sprintf("scripted ring %d: after a Set collision the reader stayed behind an emptied slot (sent %d, readIndex %d)", sc.Ring, w, r), sc)
+		return
 	}
 	if stuck {
 		res.fail("hang:ring-script", fmt.Sprintf("ring %d: the reader did not deliver a message that was in the ring (sent %d, readIndex %d)", sc.Ring, w, r), sc)
@@ -1223,6 +1312,8 @@ func (g *spinGate) Write(p []byte) (int, error) {
 func (g *spinGate) Close() error           { return nil }
 func (g *spinGate) SetSource(string) error { return nil }
 
+var gapStart time.Time
+
 func runGap(sc Scenario, res *WResult) {
 	res.Evals++
 	n := sc.Ring
@@ -1246,6 +1337,9 @@ func runGap(sc Scenario, res *WResult) {
 		}
 	}
 	deadline := time.Now().Add(time.Duration(sc.Msgs) * time.Millisecond)
+	if cap := gapStart.Add(4 * time.Second); !gapStart.IsZero() && cap.Before(deadline) {
+		deadline = cap
+	}
 	attempts := 0
 	stuck := false
 	busy := false
@@ -1336,7 +1430,11 @@ func runScenario(sc Scenario, res *WResult) {
 		return
 	}
 	if sc.Kind == "ringgap" {
-		if res.Counts["ring-gap-reproduced"] == 0 {
+		// the whole replay group is capped at 4 s of wall time: a missing KNOWN-FINDING line is acceptable, a slow check is not
+		if gapStart.IsZero() {
+			gapStart = time.Now()
+		}
+		if res.Counts["ring-gap-reproduced"] == 0 && time.Since(gapStart) < 4*time.Second {
 			runGap(sc, res)
 		}
 		return
@@ -1494,6 +1592,47 @@ func scenarios(r *h.Run) map[string][]Scenario {
 			}
 			add(Scenario{Kind: k, Producers: 2 + rng.Intn(4), Msgs: 1 + rng.Intn(8), Mix: []string{"append", "append", "all", "both"}[rng.Intn(4)], Members: ms, Case: true})
 		}
+	}
+	// composites with a member that FAILS some / all of its writes or is slow, in every position: the healthy members
+	// must still receive everything
+	failKinds := []string{"fail1", "fail2", "fail5", "slow"}
+	fi := 0
+	for n := 2; n <= 4; n++ {
+		for pos := 0; pos < n; pos++ {
+			ws := make([]string, n)
+			ms := make([]string, n)
+			for i := range ws {
+				ws[i] = "ok"
+				ms[i] = []string{"plainstring", "string", "plainstring", "json"}[i]
+			}
+			ws[pos] = failKinds[fi%len(failKinds)]
+			ms[pos] = "json" + ws[pos]
+			if ws[pos] == "slow" {
+				ms[pos] = "jsonslowm"
+			}
+			fi++
+			add(Scenario{Kind: "jsonmultifail", Producers: 2 + rng.Intn(7), Msgs: 30 + rng.Intn(30), Mix: "all", Members: ws})
+			add(Scenario{Kind: "multi", Producers: 2 + rng.Intn(7), Msgs: 30 + rng.Intn(30), Mix: "append", Members: ms})
+			add(Scenario{Kind: "combined", Producers: 2 + rng.Intn(7), Msgs: 30 + rng.Intn(30), Mix: "all", Members: ms})
+		}
+	}
+	add(Scenario{Kind: "jsonmultifail", Producers: 32, Msgs: 12, Mix: "all", Members: []string{"fail5", "ok", "fail2", "ok"}})
+	for i := 0; i < r.N(40, 120); i++ {
+		n := 2 + rng.Intn(3)
+		ws := make([]string, n)
+		ms := make([]string, n)
+		for j := range ws {
+			ws[j], ms[j] = "ok", "plainstring"
+			if j > 0 && rng.Intn(2) == 0 {
+				ws[j] = failKinds[rng.Intn(len(failKinds))]
+				ms[j] = "json" + ws[j]
+				if ws[j] == "slow" {
+					ms[j] = "jsonslowm"
+				}
+			}
+		}
+		add(Scenario{Kind: "jsonmultifail", Producers: 2 + rng.Intn(4), Msgs: 1 + rng.Intn(8), Mix: []string{"both", "all"}[rng.Intn(2)], Members: ws, Case: true})
+		add(Scenario{Kind: []string{"multi", "combined"}[rng.Intn(2)], Producers: 2 + rng.Intn(4), Msgs: 1 + rng.Intn(8), Mix: []string{"append", "all"}[rng.Intn(2)], Members: ms, Case: true})
 	}
 	// asynchronous: ring sizes 1..1024, waiter (poll 0) and poller
 	rings := []int{1, 2, 3, 4, 7, 16, 64, 1024}
